@@ -18,18 +18,19 @@ pub fn check_rest(d: &Digest, out: &mut Vec<Violation>) {
         if d.stores[s].built != Some(true) {
             continue;
         }
-        c04(d, s, out);
-        crate::oracle3::c05_c06(d, s, out);
-        crate::oracle3::c18(d, s, out);
-        crate::oracle4::c09_c10(d, s, out);
-        crate::oracle4::c14(d, s, out);
-        crate::oracle4::c16(d, s, out);
-        crate::oracle5::c11(d, s, out);
-        crate::oracle5::c12(d, s, out);
+        use crate::oracle::timed;
+        timed("c04", || c04(d, s, out));
+        timed("c05_c06", || crate::oracle3::c05_c06(d, s, out));
+        timed("c18", || crate::oracle3::c18(d, s, out));
+        timed("c09_c10", || crate::oracle4::c09_c10(d, s, out));
+        timed("c14", || crate::oracle4::c14(d, s, out));
+        timed("c16", || crate::oracle4::c16(d, s, out));
+        timed("c11", || crate::oracle5::c11(d, s, out));
+        timed("c12", || crate::oracle5::c12(d, s, out));
     }
-    crate::oracle5::c17(d, out);
-    crate::oracle4::shared_subscribers(d, out);
-    c13_complete(d, out);
+    crate::oracle::timed("c17", || crate::oracle5::c17(d, out));
+    crate::oracle::timed("shared", || crate::oracle4::shared_subscribers(d, out));
+    crate::oracle::timed("c13", || c13_complete(d, out));
 }
 
 /// events that count as "a reducer, middleware or subscriber callback of store s"
